@@ -13,11 +13,67 @@ MANIFEST = {
 }
 
 THEOREMS = ["C13_resolve_spec", "C13_resolve_normal", "C13_resolve_is_normal", "C13_resolve_abs",
-            "C13_resolve_dir_only", "C13_resolve_toplevel_file", "C13_normalize_idem", "C13_resolve_normal_base"]
+            "C13_resolve_dir_only", "C13_resolve_toplevel_file", "C13_normalize_idem", "C13_resolve_normal_base",
+            "C13_template_local_first", "C13_template_last_import_wins", "C13_template_undefined"]
+
+
+def _texts(nodes, acc):
+    for n in nodes:
+        if n.get("k") == "text":
+            acc.append(n.get("text", ""))
+        _texts(n.get("ch", []) or [], acc)
+    return acc
+
+
+def links(res):
+    """small groups rendered under node in several insertion orders: each <template is>, <include> and <wxs src> must reach
+    the file the Coq linking model (Model/Link.v, Model/Path.v) names"""
+    import json
+    p = harness_run(["links", res.tier, res.seed])
+    jobs = [json.loads(l) for l in p.stdout.decode("utf8").split("\n") if l]
+    cmds = []
+    for j in jobs:
+        for nm in ("t", "u", "v"):
+            cmds.append("tmpl_owner\t" + "\t".join(j["model_args"]) + "\t" + enc(nm))
+        cmds.append("path_dep\twxml\t" + "\t".join(j["include"]))
+        cmds.append("path_dep\twxs\t" + "\t".join(j["wxs"]))
+    model = modelrun(cmds)
+    njobs = []
+    for j in jobs:
+        for b in j["bundles"]:
+            njobs.append({"op": "run", "id": len(njobs), "bundle": b, "path": j["main"], "steps": [{"create": {"$o": {}}}]})
+    out = node_jobs(njobs, shards=8)
+    found = n = 0
+    k = 0
+    for ji, j in enumerate(jobs):
+        m = model[5 * ji:5 * ji + 5]
+        if any(x.startswith(("ERR", "EXC")) for x in m):
+            raise Infra("link model failed: %s" % m)
+        want = ""
+        inc = m[3]
+        want += "(inc@%s)" % dec(inc.split(";")[0]) if inc != "?" else ""
+        want += "s@%s" % dec(m[4].split(";")[0]) if m[4] != "?" else ""
+        for nm, o in zip(("t", "u", "v"), m[:3]):
+            if o.startswith("S"):
+                want += "[%s@%s]" % (nm, dec(o[1:]))
+        for bi in range(len(j["bundles"])):
+            o = out[k]
+            k += 1
+            n += 1
+            got = "throws: " + o["error"][:200] if o.get("error") else "".join(_texts(o["trees"][0], []))
+            if got != want:
+                found += 1
+                if found <= 4:
+                    res.violation("linking: %s renders %r in insertion order #%d, the linking model says %r" % (
+                        j["src"][:300], got, bi, want), {"files": j["files"], "main": j["main"], "insertion_order_index": bi,
+                                                        "rendered": got, "expected": want})
+    return n, found
 
 
 def run(res):
     ok, what = proof_phase(res, "C13", THEOREMS)
+    n_links, f_links = links(res)
+    res.notes["link_render_cases"] = n_links
     p = harness_run(["path", res.tier, res.seed])
     cases = split_cases(p.stdout.decode("utf8"))
     model = modelrun([c[0] for c in cases])
@@ -39,8 +95,8 @@ def run(res):
                         [dec(x) for x in f[1:]], [dec(x) for x in impl.split(";")], [dec(x) for x in m.split(";")]),
                     {"cmd": f[0], "args": [dec(x) for x in f[1:]], "impl": impl, "model": m})
     if not ok:
-        res.violation(what, {"obligation": "Properties/C13.v"}, no_input=(n_bad == 0))
-    res.cov["evaluations"] = len(cases)
+        res.violation(what, {"obligation": "Properties/C13.v"}, no_input=(n_bad + f_links == 0))
+    res.cov["evaluations"] = len(cases) + n_links
     res.cov["distinct_nontrivial"] = len(distinct)
     res.cov["exhaustive"] = True
     res.cov["rule"] = ("all (base, rel) pairs with <= %d segments over {a,b,.,..,''} x leading '/' through the hook "
